@@ -30,7 +30,7 @@ func min32(a, b uint32) uint32 {
 
 // PayloadLen draws a payload length biased to the VLQ boundaries of the length field.
 func PayloadLen(max int) *rapid.Generator[int] {
-	edges := []int{0, 1, 2, 3, 126, 127, 128, 129, 255, 256, 16383, 16384, 16385, 20000}
+	edges := []int{0, 1, 2, 3, 126, 127, 128, 129, 255, 256, 4095, 4096, 4097, 16383, 16384, 16385, 20000, 65535, 65536, 65537, 70000}
 	var ok []int
 	for _, e := range edges {
 		if e <= max {
